@@ -2,6 +2,7 @@ package lang
 
 import (
 	"fmt"
+	"sort"
 	"strconv"
 	"strings"
 )
@@ -162,6 +163,16 @@ func (v *Value) String() string {
 	}
 }
 
+// the keys of an object in sorted order
+func sortedKeys(obj map[string]*Cell) []string {
+	keys := make([]string, 0, len(obj))
+	for key := range obj {
+		keys = append(keys, key)
+	}
+	sort.Strings(keys)
+	return keys
+}
+
 // convert a value to prettified string
 func (v *Value) PrettyString(quote bool) string {
 	rootValues := make([]*Value, 0)
@@ -227,16 +238,17 @@ func (v *Value) prettyStringInteral(rootValues []*Value, quote bool, checkCircul
 	case ValueObj:
 		var sb strings.Builder
 		sb.WriteByte('{')
-		index := 0
-		for key, value := range *v.Obj {
+		// iterate in sorted key order so that output is deterministic (like the
+		// JSON output, which also sorts keys)
+		for index, key := range sortedKeys(*v.Obj) {
 			if index > 0 {
 				sb.WriteString(", ")
 			}
 
+			value := (*v.Obj)[key]
 			sb.WriteString("\"" + key + "\"")
 			sb.WriteString(": ")
 			sb.WriteString(value.Value.prettyStringInteral(append(rootValues, v), true, true))
-			index++
 		}
 		sb.WriteByte('}')
 		return sb.String()
